@@ -47,8 +47,13 @@ def obligations(ctx):
                     return out
                 ob = DecimalArm('C07', '%s(%s)' % (outer, inner), (outer, (inner, a, b), c), ref, oc=oc, label='decimal/%s(%s)/%s' % (outer, inner, tag)); ob.differential = True
                 obs.append(ob)
+        # the decimal parser groups the arithmetic of this property as the reference grammar does (a*b%c, a+b%c, -a*b, ...)
+        from ..player import ParserOb
+        AR = ['Add', 'Subtract', 'Multiply', 'Divide', 'Modulo']
+        obs.append(ParserOb('C07', 'decimal', None, oc=oc, positions=[['Num'], AR, ['Num'], AR, ['Num']], label='decimal/grammar/triple/%s' % tag))
+        obs.append(ParserOb('C07', 'decimal', None, oc=oc, positions=[['Subtract', 'Num'], ['Num', 'Subtract'] + AR, ['Num', 'Subtract'], AR, ['Num']], label='decimal/grammar/signed/%s' % tag))
         # literals reach Decimal::from_str as text of exactly their value and scale (T layer)
-        lens = [1, 2, 5, 17, 28] if ctx.tier == 'quick' else list(range(1, 30))
+        lens = [1, 2, 5, 17, 18, 19, 20, 28] if ctx.tier == 'quick' else list(range(1, 30))
         for n in lens:
             for dpos in [None] + sorted(set([0, 1, n // 2, n])):
                 ds = [digit('d%d' % i) for i in range(n)]
